@@ -413,7 +413,8 @@ class AbstractHasAxes(AbstractHasMetadata):
         # newindexing = 'label' if self._indexing=='position' else 'position'
         # new = copy.copy(self) # shallow copy, not to verwrite _indexing
         # new._indexing = newindexing
-        indexing = 'position' if self._indexing != 'position' else 'label'
+        current = getattr(self, '_indexing', None) or get_option('indexing.by')
+        indexing = 'position' if current != 'position' else 'label'
         return Indexable(self._getitem, self._setitem, self._delitem, indexing=indexing)
 
     # after xray: add sel, isel, loc, iloc methods
